@@ -1,5 +1,7 @@
 (* Model/MeshOps.v -- operation histories on one mesh: the step functions run by the
    correspondence check (executor kinds mesh.hist1 / mesh.hist2) and their output flatteners.
+   The output of a history is the results of its operations in order; the whole state is
+   read back wherever the history contains a Dump.
    In a run the nodal coordinates have the type of the variables (X = T A): Mesh1D<T,T>,
    and Mesh2D<T> with f64 nodes carried exactly (rationals in the exact tier).
    Definitions only. *)
@@ -25,12 +27,12 @@ Definition fmt_tbl (tbl : list (T * T)) (x : T) : T :=
 
 Inductive mval :=
 | VNone | VS (x : T) | VSS (x y : T) | VV (v : list T) | VN (n : nat) | VNN (n1 n2 : nat)
-| VM1 (m : mesh1) | VMat (m : matrix A) | VLines (l : list (list T)) | VLinesM1 (l : list (list T)) (m : mesh1).
+| VM1 (m : mesh1) | VM2 (m : mesh2) | VMat (m : matrix A) | VLines (l : list (list T)) | VLinesM1 (l : list (list T)) (m : mesh1).
 
 Inductive op1 :=
 | O1Set (node : nat) (v : list T) | O1Get (node : nat) | O1Idx (node : nat)
 | O1IdxSet (node : nat) (v : list T) | O1IdxElem (node var : nat) (x : T)
-| O1Coord (node : nat) | O1NNodes
+| O1Coord (node : nat) | O1NNodes | O1Dump
 | O1Interp (x : T) | O1Trap (var : nat)
 | O1File (tbl : list (T * T)) (nvars2 : nat) (nodes2 : list T)
 | O1Reread (tbl : list (T * T)).
@@ -44,6 +46,7 @@ Definition step1 (m : mesh1) (o : op1) : res (mesh1 * mval) :=
   | O1IdxElem k var x => let* m' := index1_set_elem m k var x in Ok (m', VNone)
   | O1Coord k => let* x := coord1 m k in Ok (m, VS x)
   | O1NNodes => Ok (m, VN (nnodes1 m))
+  | O1Dump => Ok (m, VM1 m)
   | O1Interp x => let* v := interp1 (c_snap K) m x in Ok (m, VV v)
   | O1Trap var => let* s := trapezium1 (c_half K) m var in Ok (m, VS s)
   | O1File tbl nv2 nodes2 =>
@@ -53,7 +56,7 @@ Definition step1 (m : mesh1) (o : op1) : res (mesh1 * mval) :=
   | O1Reread tbl =>
       let* lines := output1 T (fmt_tbl tbl) (fmt_tbl tbl) m in
       let* m' := read1 T (fun t => Ok t) m (concat lines) in
-      Ok (m', VLines lines)
+      Ok (m', VLinesM1 lines m')
   end.
 
 (* operations that may have written part of their effect before panicking end the history *)
@@ -64,7 +67,7 @@ Inductive op2 :=
 | O2Set (i j : nat) (v : list T) | O2Get (i j : nat) | O2Idx (i j : nat)
 | O2IdxSet (i j : nat) (v : list T) | O2IdxElem (i j var : nat) (x : T)
 | O2Assign (x : T) | O2XSec (i : nat) | O2YSec (j : nat) | O2VarMat (var : nat)
-| O2Apply (e : expr T) (var : nat) | O2Coord (i j : nat) | O2NNodes
+| O2Apply (e : expr T) (var : nat) | O2Coord (i j : nat) | O2NNodes | O2Dump
 | O2Trap (var : nat) | O2SqTrap (var : nat)
 | O2File (tbl : list (T * T)) | O2FileVar (tbl : list (T * T)) (var : nat).
 
@@ -82,6 +85,7 @@ Definition step2 (m : mesh2) (o : op2) : res (mesh2 * mval) :=
   | O2Apply e var => let* m' := apply2 (fun x y => eeval e [x; y]) m var in Ok (m', VNone)
   | O2Coord i j => let* p := coord2 m i j in Ok (m, VSS (fst p) (snd p))
   | O2NNodes => Ok (m, VNN (m2_nx m) (m2_ny m))
+  | O2Dump => Ok (m, VM2 m)
   | O2Trap var => let* s := trapezium2 (c_quarter K) m var in Ok (m, VS s)
   | O2SqTrap var => let* s := square_trapezium2 (c_quarter K) m var in Ok (m, VS s)
   | O2File tbl => let* lines := output2 T (fmt_tbl tbl) (fmt_tbl tbl) m in Ok (m, VLines lines)
@@ -110,7 +114,7 @@ Definition fl_val (v : mval) : list Z :=
   match v with
   | VNone => [] | VS x => flat x | VSS x y => flat x ++ flat y | VV v => fl_list flat v
   | VN n => fl_nat n | VNN a b => fl_nat a ++ fl_nat b
-  | VM1 m => fl_mesh1 m | VMat m => fl_matrix m | VLines l => fl_lines l
+  | VM1 m => fl_mesh1 m | VM2 m => fl_mesh2 m | VMat m => fl_matrix m | VLines l => fl_lines l
   | VLinesM1 l m => fl_lines l ++ fl_mesh1 m
   end.
 
@@ -119,24 +123,24 @@ Fixpoint run1_out (m : mesh1) (ops : list op1) : list Z :=
   | [] => []
   | o :: t =>
       match step1 m o with
-      | Ok (m', v) => fl_val v ++ fl_mesh1 m' ++ run1_out m' t
-      | Panic k => fl_panic k ++ (if ends1 o then [] else fl_mesh1 m ++ run1_out m t)
+      | Ok (m', v) => fl_val v ++ run1_out m' t
+      | Panic k => fl_panic k ++ (if ends1 o then [] else run1_out m t)
       end
   end.
 Definition mesh_hist1 (nvars : nat) (nodes : list T) (ops : list op1) : list Z :=
-  let m := mesh1_new nodes nvars in fl_mesh1 m ++ run1_out m ops.
+  run1_out (mesh1_new nodes nvars) ops.
 
 Fixpoint run2_out (m : mesh2) (ops : list op2) : list Z :=
   match ops with
   | [] => []
   | o :: t =>
       match step2 m o with
-      | Ok (m', v) => fl_val v ++ fl_mesh2 m' ++ run2_out m' t
-      | Panic k => fl_panic k ++ (if ends2 o then [] else fl_mesh2 m ++ run2_out m t)
+      | Ok (m', v) => fl_val v ++ run2_out m' t
+      | Panic k => fl_panic k ++ (if ends2 o then [] else run2_out m t)
       end
   end.
 Definition mesh_hist2 (nvars : nat) (xs ys : list T) (ops : list op2) : list Z :=
-  let m := mesh2_new xs ys nvars in fl_mesh2 m ++ run2_out m ops.
+  run2_out (mesh2_new xs ys nvars) ops.
 
 End Ops.
 Arguments op1 A : clear implicits.
